@@ -64,7 +64,8 @@ func init() {
 		ID:    "C10",
 		Level: "exploration",
 		Rule: "hist cases: one real app per case driven through ABCI for N blocks (quick 300, thorough 600) with seeded staking churn (delegate / undelegate / create validator / jail / unjail), " +
-			"registration churn of external accounts, chains added / activated / removed, snapshot activations on chains, >30-day time jumps and just-in-time valset updates; after every block every stored snapshot id is re-read. " +
+			"registration churn of external accounts, chains added / activated / removed, snapshot activations on chains, >30-day time jumps and just-in-time valset updates; after every block every stored snapshot id is re-read and every UpdateValset message AND every compass deployment (UploadSmartContract, whose constructor carries the valset the new compass starts with) in the turnstone queues is compared with the reference projection and the two-thirds gate; " +
+			"every tenth block a new compass version is released on a throw-away fork (the governance handler's SaveNewSmartContract + SetAsCompassContract, in every second probe after activating a known chain on the fork) and the deployments queued there are judged the same way. " +
 			"direct cases: generated snapshots (stake-vector classes small-random, equal, almost-equal, whale, near-2^53, above-2^53, one-ulp-below-integer, quorum-boundary; random per-chain account patterns) " +
 			"are projected by the real code (GetValsetByID on a stored copy, PublishSnapshotToAllChains with forcePublish on a fork of a bootstrapped chain). " +
 			"distinct_nontrivial = distinct (stake vector, account pattern) pairs with >= 2 validators in direct cases + distinct (membership, shares, chains) contents of snapshots stored by end-blocker builds and fork-probe builds in hist cases; " +
@@ -75,13 +76,16 @@ func init() {
 			"blocks at snapshot-build heights (h%50==0) carry no transactions, so that the staking state at build time equals the state before the block (jailing by the liveness check happens after the build in the same end-blocker)",
 			"on-chain activation of a snapshot is driven either through the full attested UpdateValset life cycle (world.DeliverMessage: estimates, signatures, relay, evidence, attestation) or directly through ValsetKeeper.SetSnapshotOnChain, the function the attested UpdateValset / UploadSmartContract flows end in",
 			"order of entries in a valset is not part of the property; only the set of (account, power) pairs is compared",
+			"the validator set in the constructor of a compass deployment counts as 'the validator set sent to a remote chain' (it is what the new compass trusts from its first block, and the code gates it with the same isEnoughToReachConsensus); remote addresses come back from the ABI as 20 bytes and are matched with registered accounts case-insensitively",
+			"the compass-upgrade probe gives every known chain a fee manager on the fork first (keeper call of SetFeeManagerAddressProposal): without one the deployment is refused before the gate is reached",
 		},
 		Cases:       cases,
 		Run:         run,
 		MinCounters: []string{"direct_snapshots", "projections_checked", "valset_messages_checked", "gate_withheld",
 			"snapshots_built", "immutability_rechecks", "snapshot_chain_activations", "fork_probe_builds", "hist_valset_messages_checked",
 			"builds_excluding_jailed", "builds_excluding_jailed-still-bonded", "builds_excluding_not-bonded", "builds_excluding_no-account-on-active-chain",
-			"jit_valset_messages", "op_deliver_valset_attested", "real_gov_chains_added"},
+			"jit_valset_messages", "op_deliver_valset_attested", "real_gov_chains_added",
+			"compass_probes", "hist_upload_valsets_checked", "hist_upload_valset_to_active_chain", "compass_probe_chain_below_two_thirds"},
 		TimeoutS:    1500,
 	})
 }
